@@ -468,6 +468,10 @@ class Ctx:
             goal = z3.BoolVal(True)
         if goal is False:
             goal = z3.BoolVal(False)
+        if any(t in name for t in getattr(self, 'assumed_obligations', ())):
+            # an obligation that belongs to ANOTHER property's check of the same function: here it is a stated precondition
+            self.assume(goal)
+            return
         self.obligations.append({'name': name, 'pc': list(self.pc), 'goal': goal, 'meta': meta})
         self._in_oblige = True
         try:
